@@ -9,6 +9,8 @@ A mutant is a dict:
   expect    list of rule ids, one of which must report (None: any finding of the property)
   configs   feature configurations to analyse (default ["default"])
   kind      "break" (must be reported) or "preserve" (behaviour-preserving edit: must stay silent)
+  base      optional id of a behaviour-preserving seed under /verif/seeded whose patch is applied first: the mutation is
+            then made to the *refactored* form of the code (does the rule still see the breakage in the other syntax?)
 
 Each mutant is applied to a scratch copy of the sources created with mkdtemp outside /repo and
 /verif, analysed statically by replaying the recorded rustc command line with the driver, and
@@ -65,7 +67,14 @@ def run_one(m, repo=None):
         shutil.copytree(os.path.join(repo, "src"), os.path.join(tmp, "src"))
         for f in ("Cargo.toml", "Cargo.lock"):
             shutil.copy(os.path.join(repo, f), os.path.join(tmp, f))
-        err = apply_edits(tmp, m)
+        err = None
+        if m.get("base"):
+            import subprocess
+            bp = os.path.join(extract.VERIF, "seeded", m["base"], "patch.diff")
+            r = subprocess.run(["patch", "-p1", "-s", "--no-backup-if-mismatch", "-i", bp], cwd=tmp, stdout=subprocess.PIPE, stderr=subprocess.STDOUT, text=True)
+            if r.returncode != 0:
+                err = "base patch %s does not apply: %s" % (m["base"], r.stdout[-200:])
+        err = err or apply_edits(tmp, m)
         if err:
             res["status"] = "skipped"
             res["detail"] = err
@@ -148,7 +157,14 @@ def dump_mutant(prop, mid, keys, config="default"):
         shutil.copytree(os.path.join(extract.REPO, "src"), os.path.join(tmp, "src"))
         for f in ("Cargo.toml", "Cargo.lock"):
             shutil.copy(os.path.join(extract.REPO, f), os.path.join(tmp, f))
-        err = apply_edits(tmp, m)
+        err = None
+        if m.get("base"):
+            import subprocess
+            bp = os.path.join(extract.VERIF, "seeded", m["base"], "patch.diff")
+            r = subprocess.run(["patch", "-p1", "-s", "--no-backup-if-mismatch", "-i", bp], cwd=tmp, stdout=subprocess.PIPE, stderr=subprocess.STDOUT, text=True)
+            if r.returncode != 0:
+                err = "base patch %s does not apply: %s" % (m["base"], r.stdout[-200:])
+        err = err or apply_edits(tmp, m)
         if err:
             print(err)
             return
